@@ -8,6 +8,7 @@ package rtpdump
 import (
 	"encoding/binary"
 	"errors"
+	"math"
 	"net"
 	"time"
 )
@@ -16,9 +17,16 @@ const (
 	pktHeaderLen = 8
 	headerLen    = 16
 	preambleLen  = 36
+
+	// the record length field is 16 bits wide and includes the record header
+	maxPayloadLen = math.MaxUint16 - pktHeaderLen
 )
 
-var errMalformed = errors.New("malformed rtpdump")
+var (
+	errMalformed       = errors.New("malformed rtpdump")
+	errPayloadTooLarge = errors.New("payload does not fit in a rtpdump record")
+	errSourceNotIPv4   = errors.New("source is not an IPv4 address")
+)
 
 // Header is the binary header at the top of the RTPDump file. It contains
 // information about the source and start time of the packet stream included
@@ -34,6 +42,11 @@ type Header struct {
 
 // Marshal encodes the Header as binary.
 func (h Header) Marshal() ([]byte, error) {
+	source := h.Source.To4()
+	if len(h.Source) != 0 && source == nil {
+		return nil, errSourceNotIPv4
+	}
+
 	data := make([]byte, headerLen)
 
 	startNano := h.Start.UnixNano()
@@ -44,7 +57,6 @@ func (h Header) Marshal() ([]byte, error) {
 	binary.BigEndian.PutUint32(data[0:], startSec)
 	binary.BigEndian.PutUint32(data[4:], startUsec)
 
-	source := h.Source.To4()
 	copy(data[8:], source)
 
 	binary.BigEndian.PutUint16(data[12:], h.Port)
@@ -88,6 +100,10 @@ type Packet struct {
 
 // Marshal encodes the Packet as binary.
 func (p Packet) Marshal() ([]byte, error) {
+	if len(p.Payload) > maxPayloadLen {
+		return nil, errPayloadTooLarge
+	}
+
 	packetLength := len(p.Payload)
 	if p.IsRTCP {
 		packetLength = 0
